@@ -17,6 +17,8 @@ extern "C"
     enum { SYM_EQ = 0, SYM_NE, SYM_LT, SYM_LE, SYM_GT, SYM_GE };
     // non-forking assumption  a <op> b  (path is pruned if it becomes infeasible)
     void sym_assume_cmp(double a, int op, double b);
+    // non-forking assumption  (a[0]==b[0] && ... && a[n-1]==b[n-1])  =>  c == d   (functional consistency of oracles)
+    void sym_assume_eq_implies_eq(int n, const double* a, const double* b, double c, double d);
     // forking-free obligations (violation iff the negation is satisfiable under the path condition)
     void sym_check_cmp(double a, int op, double b, const char* label);
     // |a-b| <= rel * (1 + |a| + |b|)
